@@ -144,27 +144,37 @@ func runHistory(t *testing.T, r *vrep.Report, id int, cfg histCfg) {
 			return
 		}
 	}
+	panicSeen := map[string]int{}
 	for _, p := range u.Panics() {
-		msg := p.Msg
 		var o *obs
 		for _, x := range h.obs {
-			if int64(x.logFrom) <= p.Seq { // log index <= sequence number: the last read that started before the panic
+			if x.seqFrom <= p.Seq && p.Seq <= x.seqTo {
 				o = x
 			}
 		}
+		what := "driver"
 		d := map[string]any{"backend": cfg.backend, "history": id, "history_seed": cfg.seed, "panic": p, "driver_history": h.d.Descr()}
 		if o != nil {
+			what = o.path
+			if (o.path == "iter" || o.path == "iterrev") && len(o.lower) > 0 && string(o.lower) == string(o.upper) {
+				what += ":empty-range"
+			}
 			d["read"] = describe(o)
 			d["layout_at_start"] = o.layout
 			if st := h.sess[o.sess]; st != nil {
 				d["session"] = st.log
 			}
 		}
-		r.Violate("backend-panic:"+msg+":"+cfg.backend, fmt.Sprintf("%s history %d (seed %d): the store panicked (%s) serving %s", cfg.backend, id, cfg.seed, msg, p.Req), d)
+		sig := fmt.Sprintf("backend-panic:%s:%s:%s", p.Msg, what, cfg.backend)
+		if panicSeen[sig]++; panicSeen[sig] > 2 {
+			continue // the sender retries the request that makes the store panic many times
+		}
+		r.Violate(sig, fmt.Sprintf("%s history %d (seed %d): the store panicked (%s) serving %s", cfg.backend, id, cfg.seed, p.Msg, p.Req), d)
 	}
 	for _, o := range h.obs {
 		h.judge(o, truth)
 	}
+	h.judgeOutcomes(truth)
 	// evidence
 	r.Count("histories", 1)
 	r.Count("histories:"+cfg.backend, 1)
@@ -250,26 +260,27 @@ func TestVerifC05(t *testing.T) {
 	_ = failpoint.Enable("tikvclient/fastBackoffBySkipSleep", "return")
 	defer failpoint.Disable("tikvclient/fastBackoffBySkipSleep")
 	seed := vrep.Seed()
-	nMock, nUni := vrep.Pick(60, 500), vrep.Pick(30, 250)
+	nMock, nUni := vrep.Pick(150, 1500), vrep.Pick(70, 700)
 	if s := os.Getenv("VERIF_C05_N"); s != "" {
 		if v, err := strconv.Atoi(s); err == nil {
 			nMock, nUni = v, v/2
 		}
 	}
-	only := os.Getenv("VERIF_C05_ONLY") // "mocktikv" | "unistore" | "<backend>:<history seed>"
+	only := os.Getenv("VERIF_C05_ONLY") // "mocktikv" | "unistore" | "<backend>:<history seed>" (with a VERIF_C05_N / tier that includes it)
 	t0 := time.Now()
 	id := 0
-	run := func(backend string, n int) {
+	run := func(backend string, base int64, n int) {
 		for i := 0; i < n; i++ {
 			id++
-			cfg := histCfg{backend: backend, seed: seed*100003 + int64(id), nBuild: 4 + i%7, sessions: 8, opsMax: 7}
+			// the history seed depends on (VERIF_SEED, back-end, index) only, so a history can be replayed alone
+			cfg := histCfg{backend: backend, seed: seed*1000003 + base + int64(i), nBuild: 4 + i%7, sessions: 8, opsMax: 7}
 			if only != "" && !strings.HasPrefix(fmt.Sprintf("%s:%d", backend, cfg.seed), only) {
 				continue
 			}
 			t.Logf("history %d %s seed=%d", id, backend, cfg.seed) // before running it: a crash names the history
 			h0 := time.Now()
 			runHistory(t, r, id, cfg)
-			if d := time.Since(h0); d > 2*time.Second {
+			if d := time.Since(h0); d > 5*time.Second {
 				t.Logf("history %d %s seed=%d took %v", id, backend, cfg.seed, d)
 			}
 			if id%10 == 0 {
@@ -277,8 +288,8 @@ func TestVerifC05(t *testing.T) {
 			}
 		}
 	}
-	run(uni.Mock, nMock)
-	run(uni.Uni, nUni)
+	run(uni.Mock, 0, nMock)
+	run(uni.Uni, 500000, nUni)
 	t.Logf("wall %v", time.Since(t0))
 	if only == "" {
 		r.Floor("histories:"+uni.Mock, 20)
@@ -306,4 +317,48 @@ func TestVerifC05(t *testing.T) {
 	}
 	sort.Strings(names)
 	t.Logf("summary: %s", strings.Join(names, " "))
+}
+
+// judgeOutcomes checks "locks of finished transactions are resolved to their true outcome" on the store
+// itself: after all locks were settled (by the readers' and the observer's resolvers - the driver never
+// commits a key of a transaction whose primary it did not commit), every key a transaction prewrote must
+// carry the outcome of the transaction's primary: committed at the primary's commit ts, or not at all.
+func (h *hist) judgeOutcomes(truth *uni.Truth) {
+	for _, t := range h.d.txns {
+		pk := truth.Keys[t.muts[0].key]
+		if pk == nil {
+			continue
+		}
+		var commitTS uint64
+		if w := pk.WriteOf(t.startTS); w != nil {
+			commitTS = w.CommitTS
+		}
+		h.r.Eval(1)
+		h.r.Count("txn_outcomes_checked", 1)
+		for _, m := range t.muts[1:] {
+			kt := truth.Keys[m.key]
+			if kt == nil {
+				continue
+			}
+			w := kt.WriteOf(t.startTS)
+			var bad string
+			switch {
+			case commitTS == 0 && w != nil:
+				bad = fmt.Sprintf("key %q carries a %s record of the transaction committed at %d, but the primary %q was not committed", m.key, w.Type, w.CommitTS, t.muts[0].key)
+			case commitTS != 0 && w != nil && w.CommitTS != commitTS:
+				bad = fmt.Sprintf("key %q was committed at %d, the primary %q at %d", m.key, w.CommitTS, t.muts[0].key, commitTS)
+			case commitTS != 0 && w == nil && t.locked[m.key] && kt.RolledBack(t.startTS) && !t.async:
+				bad = fmt.Sprintf("key %q was rolled back although the primary %q is committed at %d", m.key, t.muts[0].key, commitTS)
+			}
+			if bad != "" {
+				what := "committed-though-primary-is-not"
+				if commitTS != 0 {
+					what = "outcome-differs-from-committed-primary"
+				}
+				h.r.Violate(fmt.Sprintf("lock-resolved-against-its-primary:%s:%s", what, h.backend),
+					fmt.Sprintf("%s history %d (seed %d): txn start=%d (%s): %s", h.backend, h.id, h.seed, t.startTS, t.fate, bad),
+					map[string]any{"backend": h.backend, "history": h.id, "history_seed": h.seed, "driver_history": h.d.Descr(), "txn_start": t.startTS})
+			}
+		}
+	}
 }
